@@ -8,9 +8,11 @@ cpu.prv after every event, final verdict).
 """
 from vlib import core, emuhist
 
-CFG = {"C04": [("EmuMC_C04.cfg", "thread life-cycle, 2 threads, 2 CPUs + vCPU", None)],
+CFG = {"C04": [("EmuMC_C04.cfg", "thread life-cycle, 2 threads, 2 CPUs + vCPU", None),
+               ("EmuMC_CK.cfg", "life-cycle and occupancy with kernel context switches (KCO/KCI) in between", 1500)],
        "C05": [("EmuMC_C05.cfg", "occupancy/affinity, 4 threads, 2 looms", 2500),
-               ("EmuMC_C05X.cfg", "occupancy/affinity, 2 looms whose threads have the same TIDs", 1200)]}
+               ("EmuMC_C05X.cfg", "occupancy/affinity, 2 looms whose threads have the same TIDs", 1200),
+               ("EmuMC_CK.cfg", "life-cycle and occupancy with kernel context switches (KCO/KCI) in between", 1500)]}
 
 
 def main(pid, tier):
@@ -30,7 +32,7 @@ def main(pid, tier):
                                               "unspecified": sum(1 for t in g.trans if t["un"])}
         emuhist.conformance(ck, bdir, g, tier, limit_quick=lim, limit_thorough=None,
                             pairs=800 if tier == "quick" else 20000,
-                            label=pid if cfg.endswith("_%s.cfg" % pid) else pid + "/same-tids")
+                            label=pid if cfg.endswith("_%s.cfg" % pid) else pid + "/" + cfg[6:-4])
         ck.phase("conformance " + cfg)
     ck.assumptions += ["rows are identified through the names in thread.row/cpu.row (looms sorted by name)"]
     return ck.finish(rule="one emulator history per transition of the TLC state graph (shortest path to the source "
